@@ -352,7 +352,12 @@ pub fn child_main(args: &[String]) -> i32 {
         // number of matching operations in the dry run
         let rule0 = rule_of(f, usize::MAX);
         let n = dry.log_kinds.iter().filter(|(k, t, p)| rule_matches(&rule0, *k, t, p)).count();
-        let nth = if f.kind == 10 { (f.pos % 40) as usize } else { idx(f.pos, n.max(1)) };
+        let nth = if f.kind == 10 {
+            let m = dry.reads.iter().filter(|(t, p)| rule_matches(&rule0, K::Read, t, p)).count();
+            idx(f.pos, m.max(1))
+        } else {
+            idx(f.pos, n.max(1))
+        };
         let res = run_history(&case, Some((rule_of(f, nth), f.rollback, f.reuse, f.merge_after_failure, f.gc_after_failure)), &cx);
         let v = match res {
             Ok(r) => json!({
@@ -392,6 +397,8 @@ struct RunReport {
     gc_after_failure: bool,
     fired_after_first_call: bool,
     log_kinds: Vec<(K, String, String)>,
+    /// (thread, path) of every read of an opened file, in order (dry run only)
+    reads: Vec<(String, String)>,
 }
 
 /// Runs the history on a fresh SimDir, optionally with a fault armed, and applies the oracle.
@@ -406,6 +413,9 @@ fn run_history(case: &FaultCase, fault: Option<(FaultRule, bool, bool, bool, boo
     let armed_log_len = sd.log_len();
     if let Some((rule, _, _, _, _)) = &fault {
         sd.set_faults(vec![rule.clone()]);
+    } else {
+        // dry run: count the reads too (a rule that names K::Read and never fires arms the read accounting)
+        sd.set_faults(vec![FaultRule { kinds: vec![K::Read], thread: String::new(), path_suffix: String::new(), nth: usize::MAX, permanent: false, locks: false }]);
     }
     let mut failed_api: Option<(usize, String, String)> = None;
     let mut ops_done = 0usize;
@@ -477,6 +487,7 @@ fn run_history(case: &FaultCase, fault: Option<(FaultRule, bool, bool, bool, boo
         // dry run: hand back the op kinds for position selection
         let log = sd.clone_log();
         // only operations issued after the point where a fault would be armed count for the positions
+        rep.reads = sd.take_reads();
         rep.log_kinds = log.iter().skip(armed_log_len).map(|o| (o.kind, o.thread.clone(), o.path.to_string_lossy().to_string())).collect();
         return Ok(rep);
     }
